@@ -1,30 +1,9 @@
 """C12 - notation is transparent: == coincides with equality of expansions; every operation is a function of the expansion."""
-import copy
-import z3
 from .common import *  # noqa
+from .shared import *  # noqa
 from vc.speclemmas import LIB
 from vc.reflect import reflect_bool_method
-from vc.pyfe import Interp
-from vc.contract import make_input, zb, zp
-from vc.spec import expand, pwf
-from vc.engine import SV
 from contracts.pattern_family import c12_contracts
-
-
-def eq_unit(repo, cs, cn):
-    def unit(ctx):
-        # the top-level comparison runs the REAL protocol (generated __eq__ / Instantiate.__eq__ body); nested == use the contract
-        interp = Interp(repo, ctx, cs, opts={'inline': [f'{c}.__eq__' for c in PCTORS]})
-        a = make_input(interp, ctx, 'self', 'ppat', cn)
-        b = ctx.input('ppat', 'o')
-        ctx.assume(pwf(a.t))
-        ctx.assume(pwf(b.t))
-        ctx.check_feasible()
-        ctx.cover('requires')
-        r = interp.pat_eq_real(a, b)
-        ctx.oblige('post:iff equal expansions', zb(r) == (expand(a.t) == expand(b.t)), kind='post')
-        return r
-    return unit
 
 
 def build(repo, tier):
@@ -35,62 +14,14 @@ def build(repo, tier):
         JE = None
         notes.append(f'reflection of evar_is_free failed: {e!r}')
     cs = c12_contracts(JE)
-    units = lemma_units(LIB)
-    targets = {}
-    fns = []
-    # 1. equality
-    ceq = cs['Pattern.__eq__']
-    for cn in PCTORS:
-        name = f'C12/py/{cn}.__eq__'
-        units.append(Unit(name, eq_unit(repo, cs, cn)))
-        targets[name] = FnTarget(PM, f'{cn}.__eq__', ceq, arm=cn, call=lambda ax: f"({ax['self']}) == ({ax['o']})",
-                                 enum=arm_enum(cn, [('o', 'ppat')]))
-        fns.append((PFILE, f'{cn}.__eq__ (dataclass-generated unless Instantiate)'))
-    # 2. every virtual operation is stated on (and verified against) the expansion
-    for meth, others in [('evar_is_free', [('name', 'int')]), ('metavars', []), ('apply_esubst', [('evar_id', 'int'), ('plug', 'ppat')]),
-                         ('apply_ssubst', [('svar_id', 'int'), ('plug', 'ppat')]), ('instantiate', [('delta', 'pmap')])]:
-        c = cs['Pattern.' + meth]
-        arms = PCTORS if meth in ('evar_is_free', 'metavars') else ['Instantiate']
-        for cn in arms:
-            f = repo.func(PM, f'{cn}.{meth}')
-            name = f'C12/py/{cn}.{meth}'
-            units.append(Unit(name, verify_unit(repo, cs, f, c, arm=cn)))
-            targets[name] = FnTarget(PM, f'{cn}.{meth}', c, arm=cn, enum=arm_enum(cn, others))
-            fns.append((PFILE, f'{cn}.{meth}'))
-    f = repo.func(PM, 'Instantiate.simplify')
-    units.append(Unit('C12/py/Instantiate.simplify', verify_unit(repo, cs, f, cs['Instantiate.simplify'], arm='Instantiate')))
-    fns.append((PFILE, 'Instantiate.simplify'))
-    # 3. destructuring sees through notation
-    pcls = repo.cls(PM, 'Pattern')
-    for meth, cname in [('unwrap', 'Pattern.unwrap'), ('extract', 'Pattern.extract')]:
-        func = pcls.methods[meth]
-        for target_cls in ('Implies', 'App', 'Exists', 'Mu'):
-            base = cs[cname]
-            c = copy.copy(base)
-            c.params = [('cls', ('const', repo.cls(PM, target_cls))), ('pattern', 'ppat')]
-            for cn in PCTORS:
-                name = f'C12/py/{target_cls}.{meth}/pattern={cn}'
-                units.append(Unit(name, verify_unit(repo, cs, func, c, arm=cn, arm_param='pattern')))
-                targets[name] = FnTarget(PM, f'Pattern.{meth}', c, arm=cn,
-                                         call=lambda ax, t=target_cls, m=meth: f"{t}.{m}({ax['pattern']})",
-                                         enum=_pat_enum(cn, 'pattern'))
-        fns.append((PFILE, f'Pattern.{meth}'))
-    for dc in ('EVar', 'SVar', 'Symbol', 'Exists', 'Mu'):
-        func = repo.func(PM, f'{dc}.deconstruct')
-        c = cs[f'{dc}.deconstruct']
-        for cn in PCTORS:
-            name = f'C12/py/{dc}.deconstruct/pat={cn}'
-            units.append(Unit(name, verify_unit(repo, cs, func, c, arm=cn, arm_param='pat')))
-            targets[name] = FnTarget(PM, f'{dc}.deconstruct', c, arm=cn, call=lambda ax, d=dc: f"{d}.deconstruct({ax['pat']})",
-                                     enum=_pat_enum(cn, 'pat'))
-        fns.append((PFILE, f'{dc}.deconstruct'))
-    return PropSpec('C12', units, LIB, targets, trusted=TRUSTED_ENGINE + ['reflection of evar_is_free (vc/reflect.py)'],
+    parts = [eq_units(repo, cs, 'C12'), family_units(repo, cs, 'C12', 'evar_is_free'), family_units(repo, cs, 'C12', 'metavars'),
+             family_units(repo, cs, 'C12', 'apply_esubst', ['Instantiate']), family_units(repo, cs, 'C12', 'apply_ssubst', ['Instantiate']),
+             family_units(repo, cs, 'C12', 'instantiate', ['Instantiate']), simplify_units(repo, cs, 'C12'),
+             destructuring_units(repo, cs, 'C12')]
+    units, targets, fns = merge(*parts)
+    spec = PropSpec('C12', lemma_units(LIB) + units, LIB, targets,
+                    trusted=TRUSTED_ENGINE + ['reflection of evar_is_free (vc/reflect.py)'],
                     assumptions=PY_ASSUMPTIONS, functions=fns, notes=notes)
-
-
-def _pat_enum(arm, pname):
-    def gen(tier, rng):
-        for p in rp.small_patterns(2 if tier == 'quick' else 3, rng=rng, cap=60):
-            if p[0] == 'P' + arm:
-                yield {pname: p}
-    return gen
+    if JE is None:
+        spec.extra_checks.append(lambda tier, seed: [{'undecided': [('C12/py/evar_is_free notation-independence', 'reflection failed')]}])
+    return spec
